@@ -2719,6 +2719,14 @@ func (p *Posix) PutObject(ctx context.Context, po s3response.PutObjectInput) (s3
 			return s3response.PutObjectOutput{}, s3err.GetAPIError(s3err.ErrDirectoryObjectContainsData)
 		}
 
+		// the request authentication is deferred until the body reader
+		// hits EOF, so consume it before creating anything
+		if po.Body != nil {
+			if _, err := io.Copy(io.Discard, po.Body); err != nil {
+				return s3response.PutObjectOutput{}, err
+			}
+		}
+
 		err = backend.MkdirAll(name, uid, gid, doChown, p.newDirPerm)
 		if err != nil {
 			if errors.Is(err, syscall.EDQUOT) {
